@@ -146,6 +146,11 @@ class Selection:
         elif k == "dict":
             for _, c in n["items"]:
                 self.walk(c)
+        elif k == "namespace":
+            # a member's default (an Evaluatable) is evaluated only when the caller does not supply the member
+            for m in n["members"]:
+                if m["t"] == "expr" and not U.present(f"{n['name']}.{m['name']}", self.o):
+                    self.walk(m["n"])
         elif k == "dsclass":
             # every member the class HAS is evaluated on instantiation; an inherited member that is overridden is not
             for c in gen.dsclass_members(self.by, n).values():
@@ -266,8 +271,9 @@ class C06(HistoryProperty):
     NONTRIVIAL_MEASURE = "history_with_armed_faults"
 
     def gen_case(self, rng, tier):
-        cfg = gen.swarm_cfg(rng, off=("shape_change", "alloptions", "dangling", "tmpl_preset"), on=("dispatch", "overloads", "opt_default_expr", "dsclass"))
+        cfg = gen.swarm_cfg(rng, off=("shape_change", "alloptions", "dangling", "tmpl_preset"), on=("dispatch", "overloads", "opt_default_expr", "dsclass", "namespace"))
         cfg["map_partial"] = True
+        cfg["namespace_keys"] = True
         cfg["returns_node"] = rng.random() < 0.5  # bodies handing back an Evaluatable OBJECT as a plain value
         if rng.random() < 0.4:  # a share of the programs without option-rewriting nodes at all (the simplest setting)
             cfg["kinds"] = [k for k in cfg["kinds"] if k not in ("withopts", "derive", "map")]
